@@ -1,6 +1,7 @@
 package exif2
 
 import (
+	"bufio"
 	"io"
 
 	"github.com/evanoberholster/imagemeta/exif2/ifds"
@@ -103,6 +104,15 @@ func NewIfdReader(l zerolog.Logger) ifdReader {
 func (ir *ifdReader) ResetReader(r io.Reader) {
 	ir.buffer.clear()
 	ir.reader = r
+	ir.readErr = nil
+}
+
+// streamError remembers the first error of the underlying stream, so that
+// the remaining tags do not keep asking a finished or failed stream for data.
+func (ir *ifdReader) streamError(err error) {
+	if err != nil && err != bufio.ErrBufferFull && err != bufio.ErrNegativeCount && ir.readErr == nil {
+		ir.readErr = err
+	}
 }
 
 // SetCustomTagParser sets a custom tag parser
@@ -127,6 +137,7 @@ type ifdReader struct {
 	tiffHeaderOffset uint32
 	firstIfdOffset   uint32
 	exifLength       uint32
+	readErr          error
 }
 
 func (ir *ifdReader) readIfdHeader(ifd ifds.Ifd) (err error) {
@@ -289,8 +300,12 @@ func (ir *ifdReader) fastRead(n int) (buf []byte, err error) {
 	if ir.exifLength != 0 && int(ir.po)+n > int(ir.exifLength) {
 		return nil, imagetype.ErrDataLength
 	}
+	if ir.readErr != nil {
+		return nil, ir.readErr
+	}
 	if br, ok := ir.reader.(BufferedReader); ok {
 		if buf, err = br.Peek(n); err != nil {
+			ir.streamError(err)
 			if ir.logLevelError() {
 				ir.logError(err).Msg("Peek error")
 			}
@@ -312,6 +327,7 @@ func (ir *ifdReader) fastRead(n int) (buf []byte, err error) {
 	n, err = io.ReadFull(ir.reader, ir.buffer.buf[:want])
 	ir.po += uint32(n)
 	if err != nil {
+		ir.streamError(err)
 		if ir.logLevelError() {
 			ir.logError(err).Msg("Read error")
 		}
